@@ -301,6 +301,17 @@ def native_replay(ctx, q, qdir, overlays, defs, srcs, replay_file):
     rc, o, e, _, _ = run_cmd(cmd, cwd=qdir, timeout=600)
     if rc != 0:
         return "build-failed", (e or o)[-3000:], cmd
+    # symbols that stay undefined (externals of the included unit that the scenario never reaches) would make
+    # the loader reject the executable ("unexpected PLT reloc type"): bind each of them to address 0 instead
+    strict = [x for x in cmd if x != "-Wl,--unresolved-symbols=ignore-in-object-files"]
+    rc2, o2, e2, _, _ = run_cmd(strict, cwd=qdir, timeout=600)
+    if rc2 != 0:
+        undef = sorted(set(re.findall(r"undefined reference to `([A-Za-z_][A-Za-z0-9_]*)'", (e2 or "") + (o2 or ""))))
+        if undef:
+            cmd = strict + ["-Wl,--defsym=%s=0" % u for u in undef]
+            rc, o, e, _, _ = run_cmd(cmd, cwd=qdir, timeout=600)
+            if rc != 0:
+                return "build-failed", (e or o)[-3000:], cmd
     env = dict(os.environ, VP_REPLAY=replay_file, ASAN_OPTIONS="detect_leaks=0:abort_on_error=0",
                UBSAN_OPTIONS="print_stacktrace=1")
     rc, o, e, _, _ = run_cmd([exe], cwd=qdir, timeout=120, env=env)
